@@ -448,24 +448,27 @@ PREDICATES = {"C17": {"Untouched"}, "C18": {"PostOk", "WriteMinimal", "CompileSu
 TIERS = {
     # prop: tier: model universe / initial disks / faults, random driver size, e2e universe
     "C18": {"quick": dict(universe="U_tiny", init="InitFew", faults="NoFaults", onefault=False, rand=(200, 30), timeout=1500),
-            "thorough": dict(universe="U_tiny2", init="InitAll", faults="NoFaults", onefault=False, rand=(800, 40), timeout=3000)},
-    "C19": {"quick": dict(universe="U_micro", init="InitFew", faults="IoAndKill", onefault=True, rand=(200, 30), timeout=1500),
-            "thorough": dict(universe="U_tiny", init="InitFew", faults="AllFaults", onefault=True, rand=(800, 40), timeout=3000)},
-    "C17": {"quick": dict(universe="U_e2e", init="InitFew", faults="NoFaults", onefault=False, rand=(0, 0), timeout=1500),
-            "thorough": dict(universe="U_e2e", init="InitAll", faults="NoFaults", onefault=False, rand=(0, 0), timeout=3000)},
+            # thorough: the larger universe on the 6 initial directory shapes, plus ALL 193 initial trees on U_micro
+            "thorough": dict(universe="U_tiny2", init="InitFew", faults="NoFaults", onefault=False, rand=(400, 40), timeout=3000,
+                             extra=[dict(universe="U_micro", init="InitAll")])},
+    "C19": {"quick": dict(universe="U_micro", init="InitFew", faults="AllFaults", onefault=True, rand=(200, 30), timeout=1500),
+            "thorough": dict(universe="U_tiny", init="InitFew", faults="AllFaults", onefault=True, rand=(400, 40), timeout=3000)},
+    "C17": {"quick": dict(universe="U_e2e", init="InitAll", faults="NoFaults", onefault=False, rand=(0, 0), timeout=1500),
+            # thorough: invalid compiles also on top of directories left behind by interrupted compiles
+            "thorough": dict(universe="U_e2e", init="InitAll", faults="IoAndKill", onefault=False, rand=(0, 0), timeout=3000)},
 }
 
 
-def model_run(chk, variant, t, *, invalid: bool):
+def model_run(chk, variant, t, *, invalid: bool, tag: str = ""):
     devs = deviations(variant)
     inv = ("WellFormed", "PostOk", "WriteMinimal") + (() if devs else ("NoSpuriousFailure",))
-    cfg = write_model_cfg(chk, f"MC_{chk.prop}", universe=t["universe"], init=t["init"], faults=t["faults"],
+    cfg = write_model_cfg(chk, f"MC_{chk.prop}{tag}", universe=t["universe"], init=t["init"], faults=t["faults"],
                           restart=True, invalid=invalid, variant=variant, onefault=t["onefault"], cond=bool(devs),
                           invariants=inv,
                           maxroot=0 if t["universe"] == "U_e2e" else 2)
     r = vlib.tlc(SPEC / "MCArtifactDir.tla", cfg, workers=4, timeout=t["timeout"], coverage=True, seed=chk.seed,
-                 metadir=chk.work / "meta-model", heap="6g")
-    chk.add_tlc("model", r)
+                 metadir=chk.work / f"meta-model{tag}", heap="6g")
+    chk.add_tlc("model" + tag, r)
     if r.violated:
         raise vlib.ToolError(f"model run: layer B violates layer A ({r.violated}) although conditioned on the named "
                              f"deviations - the transcription or the deviation list is wrong:\n{r.out[-3000:]}")
@@ -523,6 +526,13 @@ def run(chk: vlib.Check) -> None:
     invalid = chk.prop == "C17"
     r = model_run(chk, variant, t, invalid=invalid)
     hist = histories_of(r)
+    for k, ex in enumerate(t.get("extra", [])):
+        t2 = dict(t)
+        t2.update(ex)
+        seen = {json.dumps({"init": c["init"], "steps": c["steps"]}, sort_keys=True) for c in hist}
+        for c in histories_of(model_run(chk, variant, t2, invalid=invalid, tag=f"-extra{k}")):
+            if json.dumps({"init": c["init"], "steps": c["steps"]}, sort_keys=True) not in seen:
+                hist.append(c)
     if chk.prop == "C19":
         hist = [c for c in hist if has_fault(c)]
     if chk.prop == "C17":
@@ -569,6 +579,8 @@ def run(chk: vlib.Check) -> None:
         if chk.prop == "C19":
             h2 = [c for c in h2 if has_fault(c)]
         limit = 600 if chk.tier == "quick" else 20000
+        chk.cov["e2e_universe_histories"] = len(h2)
+        chk.cov["e2e_universe_histories_replayed"] = min(len(h2), limit)
         for c in h2[:limit]:
             e2e_cases.append(e2e_case(c, base + len(e2e_cases)))
             if chk.prop == "C19":      # the real operation lists are longer: also interrupt later
@@ -650,7 +662,9 @@ def run(chk: vlib.Check) -> None:
                            "through the real compiler in batch and watch mode; non-trivial = distinct (diagnostic, mode, "
                            "directory before) triples where the directory held files")
     chk.cov["distinct_nontrivial"] = len(nontrivial)
-    chk.cov["exhaustive"] = True   # the bounded model was explored completely and every printed history was replayed
+    # the bounded model was explored completely and every printed history of the main model was replayed through
+    # the real compile(); the end-to-end projection is a (possibly truncated, see e2e_universe_histories*) second binding
+    chk.cov["exhaustive"] = True
     for c in (hist[:1] + hist[len(hist) // 2: len(hist) // 2 + 1] + hist[-1:]):
         chk.sample({"history": {k: v for k, v in c.items() if k != "id"}})
     if e2e_cases:
